@@ -8,6 +8,22 @@ COMMON_ASSUME = [
 ]
 
 PROPS = {
+    "C13": {
+        "units": [
+            {"pkg": "./c13", "run": "TestC13Sequential|TestC13SelfRedirect", "shards": 4, "shards_thorough": 16, "timeout": 900},
+            {"pkg": "./c13", "run": "TestC13Concurrent", "race": True, "shards": 2, "shards_thorough": 4, "timeout": 900},
+        ],
+        "rule": ("rapid-generated redirect routes over the documented template forms (https://h$path, https://$host$path, http://h/$path, http://h/bbb$path, http://h/bbb/$path, fixed targets, $host with fixed path; "
+                 "with/without own query) under host-less, host-specific, *:80 and *.x routes, codes 300-399, strip/prepend combinations; requests parsed by net/http from raw bytes with percent-encoded octets "
+                 "(%2F %2f %20 %41 %C3%A9 %25 ...), queries, hosts with ports. Oracle: string-level model from the statement and docs (Location = template with $host -> request host and $path -> prepend + "
+                 "strip(raw request path), request query carried when the target has none; for fixed targets only scheme/host/path asserted), configured status, zero upstream hits; self-redirect (same "
+                 "X-Forwarded-Proto scheme, host, path) answered by the next matching host; under -race 2-32 goroutines with distinct paths/hosts on one route each get their own Location. "
+                 "Non-trivial = $path template and (encoded octet in the request path or strip/prepend); self-redirect cases with a fallback host; concurrent workloads."),
+        "technique": "rapid property tests against a string-level Location model; concurrent per-goroutine oracle under the race detector",
+        "level_text": "Redirect responses produced by HTTPProxy + Table.Lookup for generated routes and requests are compared with a model of the documented template semantics, sequentially and under concurrent load with the race detector. Exploration only.",
+        "level_note": "Request paths are ASCII with percent-encoded octets (raw non-ASCII bytes are re-encoded by net/url and are not 'the client's percent-encoding'). When a self-redirect has no other matching host the statement does not say what answers; only 'no upstream contacted' is asserted there.",
+        "assumptions": COMMON_ASSUME,
+    },
     "C12": {
         "units": [{"pkg": "./c12", "shards": 8, "shards_thorough": 16, "timeout": 900}],
         "rule": ("rapid-generated allow=/deny= lists of 1-6 items (IPv4/IPv6 addresses and CIDR blocks incl. /0, /32, /128, 4-in-6, host bits set; 'ip:' in any case and spacing; malformed items: mask 33/129, "
